@@ -86,6 +86,12 @@ Defs == [
   \* TypedDict keys that are no identifiers a class could use, or differ only by case (non-ASCII names are not used: value terms carry escaped text)
   TD7 |-> [flavour |-> "typeddict",    module |-> "m1", py |-> "TD7", fields |-> << <<"self", P("int"), FALSE>>, <<"cls", P("date"), FALSE>>,
              <<"Key", P("int"), FALSE>>, <<"key", P("str"), FALSE>>, <<"KEY", P("Decimal"), FALSE>> >>],
+  \* members declared along a chain of three plain annotated classes (root, middle, the class itself)
+  P3  |-> [flavour |-> "plain_mro",    module |-> "m1", py |-> "P3",  fields |-> << <<"a", P("int"), FALSE>>, <<"b", P("date"), FALSE>>, <<"c", P("Decimal"), FALSE>> >>],
+  \* a class derived from a named tuple, adding only behaviour
+  N7  |-> [flavour |-> "nt_sub",       module |-> "m1", py |-> "N7",  fields |-> << <<"s", P("str"), FALSE>>, <<"d", P("date"), FALSE>>, <<"v", P("Decimal"), FALSE>> >>],
+  \* a TypedDict three levels deep: total root, total=False middle, total leaf
+  TD8 |-> [flavour |-> "typeddict_inh3", module |-> "m1", py |-> "TD8", fields |-> << <<"id", P("int"), FALSE>>, <<"body", P("str"), TRUE>>, <<"kind", P("date"), FALSE>> >>],
   \* a dataclass whose instances are falsy (a status object, an empty page: __bool__ / __len__ belong to the value, not to its type)
   F1  |-> [flavour |-> "dc_falsy",     module |-> "m1", py |-> "F1",  fields |-> << <<"n", P("int"), FALSE>>, <<"at", P("date"), FALSE>> >>],
   \* a dataclass whose instances can be called (a structured class like any other)
@@ -127,7 +133,7 @@ Hashable(T) ==
     [] T.k = "coll" -> T.c \in {"frozenset", "tuple"} /\ Hashable(T.a)
     [] T.k = "union" -> \A i \in 1..Len(T.xs) : Hashable(T.xs[i])
     [] T.k \in Wrappers -> Hashable(T.a)
-    [] T.k = "cls" -> Defs[T.c].flavour \in {"dc_frozen", "namedtuple"} /\
+    [] T.k = "cls" -> Defs[T.c].flavour \in {"dc_frozen", "namedtuple", "nt_sub"} /\
                       \A i \in 1..Len(Defs[T.c].fields) : Defs[T.c].fields[i][2].k = "prim"
     [] OTHER -> FALSE
 
